@@ -65,6 +65,27 @@ theorem disk_ops_are_logstore_ops (nd : Node) :
     (∀ id, (step nd (.deleteConflict id)).disk = { nd.disk with ls := nd.disk.ls.deleteConflictSince id }) :=
   ⟨disk_saveVote nd, disk_append nd, disk_purge nd, disk_deleteConflict nd⟩
 
+/-- at every crash point the log on disk has no hole: consecutive indices, first entry right after the
+persisted purge marker (under the full log discipline `OpsFull`; holds because `purge_logs_upto`
+writes the deletions and the marker in ONE batch — openraft: "must not leave a hole") -/
+theorem crash_log_has_no_hole (ops : List Op) (h : OpsFull {} ops) :
+    ∀ d ∈ crashDisks {} ops, d.ls.NoHole :=
+  crash_noHole LogStore.noHole_init ops h
+
+/-- `RocksStore::open` alone is only the metadata half of recovery: `reopen` (= what
+`bootstrap_persistent` does through `open_with_shared_state`) is `openOnly` plus the replayed state -/
+theorem reopen_is_open_plus_replay (d : Disk) :
+    reopen d = (replayState d).bind fun st => .ok { openOnly d with mem := { (openOnly d).mem with state := st } } := rfl
+
+/-- … and on its own it is NOT a recovery: after one applied command it reports the applied position
+with an empty state (the footgun; outside C36, which is about the restart path of a coordinator) -/
+theorem open_only_is_not_recovery :
+    let e : Entry := ⟨⟨1, 1, 1⟩, .normal (.groupDeployed "g" "1")⟩
+    let d := (run {} [.append [e], .applyTo 1]).disk
+    (openOnly d).mem.lastApplied = some ⟨1, 1, 1⟩ ∧ (openOnly d).mem.state = {} ∧
+    reopen d = .ok { mem := smOf [e] (some 1), disk := d } ∧ (smOf [e] (some 1)).state ≠ {} := by
+  decide
+
 /-- the premises are satisfiable by a history with compaction and a snapshot build that overlaps an
 apply: append two committed entries, apply the first, capture a snapshot, apply the second while the
 build is in flight, persist the snapshot, purge up to it, append and apply a third entry — the
@@ -98,5 +119,27 @@ example :
     simp only [List.mem_singleton] at he
     subst he; decide
   · show toApply _ 3 = _; decide
+
+/-- … and the full log discipline of `crash_log_has_no_hole` -/
+example :
+    let e1 : Entry := ⟨⟨1, 1, 1⟩, .normal (.registerWorker "w" "a" "k" 1 0 1)⟩
+    let e2 : Entry := ⟨⟨1, 1, 2⟩, .membership "1.2"⟩
+    let e3 : Entry := ⟨⟨1, 1, 3⟩, .normal (.groupDeployed "g" "1")⟩
+    OpsFull {} [Op.append [e1, e2], .applyTo 1, .beginSnapshot, .applyTo 2, .finishSnapshot,
+      .purge ⟨1, 1, 1⟩, .append [e3], .applyTo 3] := by
+  intro e1 e2 e3
+  refine ⟨?_, trivial, trivial, trivial, trivial, ?_, ?_, trivial, trivial⟩
+  · exact ⟨⟨rfl, trivial⟩, by intro f hf; simp at hf; subst hf; intro p hp; cases hp⟩
+  · intro f hf
+    have : f = e1 := by
+      have h : (step (step (step (step (step ({} : Node) (.append [e1, e2])) (.applyTo 1)) .beginSnapshot) (.applyTo 2)) .finishSnapshot).disk.ls.log.head? = some e1 := by decide
+      rw [h] at hf; exact (Option.some.inj hf).symm
+    subst this; decide
+  · refine ⟨trivial, ?_⟩
+    intro f hf
+    simp only [List.head?_cons, Option.some.injEq] at hf
+    subst hf
+    have h : (step (step (step (step (step (step ({} : Node) (.append [e1, e2])) (.applyTo 1)) .beginSnapshot) (.applyTo 2)) .finishSnapshot) (.purge ⟨1, 1, 1⟩)).disk.ls.log.getLast? = some e2 := by decide
+    rw [h]
 
 end Varpulis.Props.C36
